@@ -7,6 +7,8 @@ package vsync
 
 import (
 	"sync"
+	"sync/atomic"
+	"time"
 
 	"github.com/jcmturner/gokrb5/v8/zzverif/vsched"
 )
@@ -15,6 +17,29 @@ type (
 	Map    = sync.Map
 	Locker = sync.Locker
 )
+
+// Free-running delay injection (used by the -race passes): the delayAt-th lock release (Unlock / RUnlock) since
+// ArmDelay pauses the releasing goroutine for DelayFor, so that whatever it does next without holding the lock
+// happens after the other goroutines have moved on. The race pass walks the position over all releases of a scenario,
+// one pause per run: the window right behind every critical section is visited systematically instead of by luck.
+var (
+	delayAt  int64 = -1
+	releases int64
+	DelayFor = 2 * time.Millisecond
+)
+
+// ArmDelay resets the release counter and sets the position to pause at (-1: count only).
+func ArmDelay(k int64) { atomic.StoreInt64(&releases, 0); atomic.StoreInt64(&delayAt, k) }
+
+// Releases returns the number of free-running lock releases since ArmDelay.
+func Releases() int64 { return atomic.LoadInt64(&releases) }
+
+func afterRelease() {
+	n := atomic.AddInt64(&releases, 1) - 1
+	if k := atomic.LoadInt64(&delayAt); k >= 0 && n == k {
+		time.Sleep(DelayFor)
+	}
+}
 
 // Pool is a scheduler-aware sync.Pool: under the scheduler Get and Put are scheduling points and the pool is a
 // deterministic LIFO (an object put back is the next one handed out, which is what makes a use-after-Put visible);
@@ -86,6 +111,7 @@ func (m *Mutex) Unlock() {
 		return
 	}
 	m.real.Unlock()
+	afterRelease()
 }
 
 // RWMutex is a scheduler-aware sync.RWMutex with writer preference.
@@ -123,6 +149,7 @@ func (m *RWMutex) Unlock() {
 		return
 	}
 	m.real.Unlock()
+	afterRelease()
 }
 
 func (m *RWMutex) RLock() {
@@ -149,6 +176,7 @@ func (m *RWMutex) RUnlock() {
 		return
 	}
 	m.real.RUnlock()
+	afterRelease()
 }
 
 // RLocker mirrors sync.RWMutex.RLocker.
